@@ -245,3 +245,16 @@ PROPS["C12"] = {
         "the model folds answers in the order the provider was called (the order in which the cache processes them)",
     ],
 }
+
+PROPS["C13"] = {
+    "pkg": "c13", "level": "exploration",
+    "jobs": {
+        "quick": [{"name": "pods", "run": "^TestPodHistories$", "checks": 2400, "shards": 16, "steps": 32}],
+        "thorough": [{"name": "pods", "run": "^TestPodHistories$", "checks": 128000, "shards": 16, "steps": 30, "timeout": 1700}],
+    },
+    "assumptions": [
+        "lookups are issued only at quiescent points (after the sentinel barrier), which is what 'after any history has been observed' states; the window between the informer's index update and the provider's invalidation callback is not explored",
+        "the barrier relies on client-go delivering handler notifications in event order and on absent results not being memoised by the provider",
+        "no regex in the pool matches the empty string as a whole; distinct IPs among existing pods",
+    ],
+}
